@@ -7,6 +7,7 @@
 #include "../core/worker.hpp"
 #include "../core/gen.hpp"
 #include "../core/corpus.hpp"
+#include "../core/corpus_files.hpp"
 #include <jsoncons/json.hpp>
 #include <jsoncons_ext/jsonpath/jsonpath.hpp>
 #include <jsoncons_ext/jmespath/jmespath.hpp>
@@ -118,24 +119,47 @@ MVal generate(const std::string&, uint64_t seed, uint64_t idx) {
     plan.set("period", MVal::uinteger(r.pick(periods)));
     plan.set("skew", MVal::uinteger(r.below(2000)));
     MVal arts = MVal::arr();
+    MVal ins = MVal::arr();
+    const corpus::Files& F = corpus::files();
     size_t na = 2 + r.below(4);
+    std::vector<size_t> pref(na, SIZE_MAX);      // input index that belongs to the artefact (its corpus group's document)
     for (size_t i = 0; i < na; ++i) {
         MVal a = MVal::obj();
         unsigned sel = (unsigned)r.below(8);
-        if (sel < 3) { a.set("kind", MVal::str("schema")); a.set("schema", MVal::parse(r.pick(corpus::schemas).schema)); }
-        else if (sel < 5) { a.set("kind", MVal::str("jsonpath")); a.set("expr", MVal::str(r.pick(corpus::jsonpaths))); }
-        else if (sel < 6) { a.set("kind", MVal::str("jmespath")); a.set("expr", MVal::str(r.pick(corpus::jmespaths))); }
-        else { a.set("kind", MVal::str("doc")); a.set("doc", corpus::store_doc(r)); }
+        bool from_files = r.chance(3, 5);
+        if (sel < 3) {
+            a.set("kind", MVal::str("schema"));
+            if (from_files && !F.schema_groups.empty()) {
+                const MVal& g = F.schema_groups[r.below(F.schema_groups.size())];
+                a.set("schema", *g.find("schema")); a.set("src", *g.find("src"));
+                const auto& gi = g.geta("instances");
+                if (!gi.empty()) { pref[i] = ins.a.size(); for (size_t k = 0; k < gi.size() && k < 4; ++k) ins.push(gi[(k + r.below(gi.size())) % gi.size()]); }
+            } else a.set("schema", MVal::parse(r.pick(corpus::schemas).schema));
+        } else if (sel < 5) {
+            a.set("kind", MVal::str("jsonpath"));
+            if (from_files && !F.jsonpath_groups.empty()) {
+                const MVal& g = F.jsonpath_groups[r.below(F.jsonpath_groups.size())];
+                const auto& ex = g.geta("exprs"); a.set("expr", ex[r.below(ex.size())]);
+                pref[i] = ins.a.size(); ins.push(*g.find("given"));
+            } else a.set("expr", MVal::str(r.pick(corpus::jsonpaths)));
+        } else if (sel < 6) {
+            a.set("kind", MVal::str("jmespath"));
+            if (from_files && !F.jmespath_groups.empty()) {
+                const MVal& g = F.jmespath_groups[r.below(F.jmespath_groups.size())];
+                const auto& ex = g.geta("exprs"); a.set("expr", ex[r.below(ex.size())]);
+                pref[i] = ins.a.size(); ins.push(*g.find("given"));
+            } else a.set("expr", MVal::str(r.pick(corpus::jmespaths)));
+        } else { a.set("kind", MVal::str("doc")); a.set("doc", corpus::store_doc(r)); }
         arts.push(a);
     }
     plan.set("artefacts", arts);
-    MVal ins = MVal::arr();
-    size_t ni = 2 + r.below(3);
-    for (size_t i = 0; i < ni; ++i) {
+    size_t extra = 2 + r.below(3);
+    for (size_t i = 0; i < extra; ++i) {
         if (r.chance(1, 3)) ins.push(MVal::parse(r.pick(corpus::schemas).inst));
         else ins.push(corpus::store_doc(r));
     }
     plan.set("inputs", ins);
+    size_t ni = ins.a.size();
     size_t nt = 2 + r.below(r.chance(1, 4) ? 15 : 5);
     MVal tasks = MVal::arr();
     for (size_t t = 0; t < nt; ++t) {
@@ -149,7 +173,7 @@ MVal generate(const std::string&, uint64_t seed, uint64_t idx) {
             else if (kind == "jsonpath") o.set("op", MVal::str(r.pick(jsonpath_ops)));
             else if (kind == "jmespath") o.set("op", MVal::str(r.pick(jmespath_ops)));
             else o.set("op", MVal::str(r.pick(doc_ops)));
-            o.set("in", MVal::uinteger(r.below(ni))); o.set("arg", MVal::uinteger(r.below(16)));
+            o.set("in", MVal::uinteger(pref[ai] != SIZE_MAX && r.chance(2, 3) ? pref[ai] + r.below(2) : r.below(ni))); o.set("arg", MVal::uinteger(r.below(16)));
             ops.push(o);
         }
         tasks.push(ops);
